@@ -868,6 +868,9 @@ pub struct AxisIn<'a> {
     pub pct_scale: f32,
     /// content-box size when the container's used size on this axis is its own definite length
     pub definite_inner: Option<f32>,
+    /// content box of the container's definite MAX size on this axis when its size is indefinite (auto, no aspect ratio, root of the
+    /// layout): CSS Grid 7.2.3.2 counts auto-repetitions against it ("definite size or max size")
+    pub bound_inner: Option<f32>,
     /// content-box size used to resolve percentages (None: indefinite)
     pub inner: Option<f32>,
     pub info: &'a DetailedGridTracksInfo,
@@ -920,7 +923,7 @@ pub fn check_axis(a: &AxisIn, checked: &mut [u64; 5]) -> Vec<Verdict> {
     // auto-repeat: largest count that does not overflow a definite content box (only when every track is a fixed px
     // length; 1e-3 slack)
     if valid && has_auto {
-        if let Some(inner) = a.definite_inner {
+        if let Some(inner) = a.definite_inner.or(if a.gap.0 == 0 { a.bound_inner } else { None }) {
             let gapv = if a.gap.0 == 0 { f32::from_bits(a.gap.1) as f64 } else { f32::from_bits(a.gap.1) as f64 * inner as f64 };
             let all_px = a.template.iter().all(|e| e.tracks.iter().all(|t| t.fixed_px().is_some()));
             if all_px {
@@ -1097,6 +1100,28 @@ pub fn gen_oracle(seed: u64, idx: u64) -> (NodeSpec, Size<AvailableSpace>) {
             t.style.grid_template_rows = tmpl(&mut rng);
         }
     }
+    // a tenth of the cases: auto-repeat tracks on an axis whose size is AUTO but bounded by a max-size (and often a smaller min-size),
+    // so that "how many repetitions" is decided by the bounds, not by a definite size
+    if idx % 10 == 4 {
+        let tr = *rng.pick(&[10.0f32, 20.0, 30.0]);
+        let kind = if rng.chance(1, 2) { GridTrackRepetition::AutoFill } else { GridTrackRepetition::AutoFit };
+        let lo = tr * (1.0 + rng.below(2) as f32) + *rng.pick(&[0.0f32, 3.0]);
+        let hi = lo + tr * (1.0 + rng.below(3) as f32) + *rng.pick(&[0.0f32, 1.0]);
+        let rep = TrackSizingFunction::Repeat(kind, vec![length(tr)]);
+        let with_min = rng.chance(2, 3);
+        t.style.aspect_ratio = None;
+        if rng.chance(1, 2) {
+            t.style.grid_template_columns = vec![rep];
+            t.style.size.width = Dimension::auto();
+            t.style.min_size.width = if with_min { Dimension::length(lo) } else { Dimension::auto() };
+            t.style.max_size.width = Dimension::length(hi);
+        } else {
+            t.style.grid_template_rows = vec![rep];
+            t.style.size.height = Dimension::auto();
+            t.style.min_size.height = if with_min { Dimension::length(lo) } else { Dimension::auto() };
+            t.style.max_size.height = Dimension::length(hi);
+        }
+    }
     if t.children.is_empty() && rng.chance(1, 2) {
         t.children.push(NodeSpec { style: treegen::style(&mut rng, &cfg, false, true), ctx: treegen::ctx(&mut rng, &cfg), children: vec![] });
     }
@@ -1145,18 +1170,32 @@ pub fn oracle_on(spec: &NodeSpec, avail: Size<AvailableSpace>, checked: &mut [u6
     let def_h = def(dim_len(s.size.height), lay.size.height, [s.padding.top, s.padding.bottom, s.border.top, s.border.bottom], scroll_y);
     // percentages resolve against the content box only when the container size was definite while sizing; restrict to the
     // cases where that is certain (own definite length)
+    // indefinite size bounded by a definite max-size (and a min-size that does not exceed it): the auto-repeat count is taken against
+    // the max-size content box
+    let bound = |size: Dimension, min: Dimension, max: Dimension, pb: [LengthPercentage; 4], scroll: f32| -> Option<f32> {
+        let mx = dim_len(max)?;
+        let min_ok = min.is_auto() || dim_len(min).map(|m| m <= mx).unwrap_or(false);
+        if bb && size.is_auto() && s.aspect_ratio.is_none() && scroll == 0.0 && min_ok && pb.iter().all(|l| is_len(*l)) {
+            let pbs: f32 = pb.iter().map(|l| l.into_raw().value()).sum();
+            if mx - pbs > 0.0 { Some(mx - pbs) } else { None }
+        } else {
+            None
+        }
+    };
+    let bound_w = bound(s.size.width, s.min_size.width, s.max_size.width, [s.padding.left, s.padding.right, s.border.left, s.border.right], scroll_x);
+    let bound_h = bound(s.size.height, s.min_size.height, s.max_size.height, [s.padding.top, s.padding.bottom, s.border.top, s.border.bottom], scroll_y);
     let mut out = vec![];
     let col_spans = r.info.items.iter().map(|i| (i.column_start as usize, i.column_end as usize)).collect();
     let row_spans = r.info.items.iter().map(|i| (i.row_start as usize, i.row_end as usize)).collect();
     if let Some(g) = lp_of(s.gap.width) {
         out.extend(check_axis(
-            &AxisIn { name: "columns", template: &cols, autos: &auto_cols, pct_scale: lay.size.width, gap: g, definite_inner: if def_w { Some(inner_w) } else { None }, inner: if def_w { Some(inner_w) } else { None }, info: &r.info.columns, spans: col_spans },
+            &AxisIn { name: "columns", template: &cols, autos: &auto_cols, pct_scale: lay.size.width, gap: g, definite_inner: if def_w { Some(inner_w) } else { None }, bound_inner: bound_w, inner: if def_w { Some(inner_w) } else { None }, info: &r.info.columns, spans: col_spans },
             checked,
         ));
     }
     if let Some(g) = lp_of(s.gap.height) {
         out.extend(check_axis(
-            &AxisIn { name: "rows", template: &rows, autos: &auto_rows, pct_scale: lay.size.height, gap: g, definite_inner: if def_h { Some(inner_h) } else { None }, inner: if def_h { Some(inner_h) } else { None }, info: &r.info.rows, spans: row_spans },
+            &AxisIn { name: "rows", template: &rows, autos: &auto_rows, pct_scale: lay.size.height, gap: g, definite_inner: if def_h { Some(inner_h) } else { None }, bound_inner: bound_h, inner: if def_h { Some(inner_h) } else { None }, info: &r.info.rows, spans: row_spans },
             checked,
         ));
     }
